@@ -147,6 +147,7 @@ type World struct {
 	AEADCalls []*AEADCall
 	Recs      []*Rec
 	Sessions  int
+	InFlight  int // operations currently inside the SDK (concurrent engines)
 
 	RetainBuffers bool
 	// RealSecrets: 0 = tracking pure-Go factory, 1 = real protectedmemory, 2 = real memguard (behind a retaining wrapper)
@@ -235,6 +236,10 @@ func (w *World) begin(kind string, p *Proc, part string) *OpRec {
 	}
 	w.Ops = append(w.Ops, op)
 	w.S.Cur().Local = op
+	w.InFlight++
+	if w.InFlight > 1 {
+		w.S.Probe("ops.overlapping")
+	}
 	w.S.Logf("op %d %s p%d %s", op.Idx, kind, op.Proc, part)
 	return op
 }
@@ -242,6 +247,7 @@ func (w *World) begin(kind string, p *Proc, part string) *OpRec {
 func (w *World) end(op *OpRec) {
 	op.T1 = w.S.Elapsed()
 	w.S.Cur().Local = nil
+	w.InFlight--
 	res := "ok"
 	if op.Err != nil {
 		res = "err"
